@@ -5,6 +5,7 @@ import ast
 from ..project import AnalysisError, loc, norm_stmt
 from ..rules import fsa_rules as F
 from ..rules import cache_rules as CA
+from ..rules import sibling_rules as SI
 from ..rules.common import u1, n1
 
 REL = F.FSA_REL
@@ -49,6 +50,9 @@ def run(ctx):
     ctx.do(n1, ["geometry_tools/automata/fsa.py"])
     ctx.do(CA.rule_c2, "FSA")
     ctx.do(F.rule_rf1)
+    ctx.do(F.rule_v1p)
+    ctx.do(SI.rule_v2_rename)
+    ctx.do(SI.rule_fk1, [SI.FSA])
     ctx.do(u1, ENTRIES, min_functions=12)
     ctx.r.assume("language equality for multiples, relabelling, pruning and "
                  "the shortest-path subgraph is not decided (needs values)")
